@@ -71,6 +71,16 @@ def tx_model(draw, max_in=5, max_out=5, big=True, witness='any', min_out=0, scri
     else:
         item = blob(big=big, p_big=0.01)
         wit = [[draw(item).hex() for _ in range(draw(st.sampled_from([0, 1, 1, 2, 3])))] for _ in vin]
+    if draw(st.integers(0, 9)) == 0 and nin < max_in + 2:
+        # an input (with its witness stack) and / or an output repeated VERBATIM, adjacent or not: legal on the wire, and the
+        # case in which anything keyed by value instead of by position goes wrong
+        j = draw(st.integers(0, nin - 1))
+        at = draw(st.integers(0, nin))
+        vin.insert(at, list(vin[j]))
+        if wit is not None and len(wit) == nin:
+            wit.insert(at, list(wit[j if j < at else j]))
+        if vout and draw(st.booleans()):
+            vout.insert(draw(st.integers(0, len(vout))), list(vout[draw(st.integers(0, len(vout) - 1))]))
     return {'version': draw(i32), 'vin': vin, 'vout': vout, 'wit': wit, 'locktime': draw(u32)}
 
 
